@@ -306,7 +306,20 @@ fn mutate(rng: &mut Rng, stream: &mut Vec<u8>) -> &'static str {
         stream.extend_from_slice(b"\r\n");
         return "empty";
     }
-    match rng.below(17) {
+    match rng.below(18) {
+        17 => {
+            // hostile values in the fields the client interprets itself
+            if let Some(i) = stream.windows(2).position(|w| w == b"\r\n") {
+                let name: &[u8] = *rng.pick(&[&b"Connection"[..], b"Transfer-Encoding", b"Content-Length", b"Location", b"connection", b"Expect"]);
+                let value: &[u8] = *rng.pick(&[&b""[..], b",", b", keep-alive", b"keep-alive,", b",,", b" ", b"\t", b", ,", b"close,", b",close", b"chunked,", b",chunked", b"0,0", b";", b"\xff,"]);
+                let mut line = name.to_vec();
+                line.extend_from_slice(b": ");
+                line.extend_from_slice(value);
+                line.extend_from_slice(b"\r\n");
+                stream.splice(i + 2..i + 2, line);
+            }
+            "field-value-games"
+        }
         0 => {
             let i = rng.usize_in(0, stream.len() - 1);
             stream[i] ^= 1 << rng.below(8);
@@ -574,7 +587,7 @@ fn five_reasons_case(idx: u64, rec: &mut Rec) {
     if status == 302 {
         head.fields.push(Field::new("Location", b"/n"));
     }
-    let ex = Exchange { cfg, req_body: b"abc".to_vec(), handshake: Handshake::Refused, interim_reason: "", head, body: BodyPlan::Bare, close_data: b"tail".to_vec(), extra_interim: 0 };
+    let ex = Exchange { cfg, req_body: b"abc".to_vec(), handshake: Handshake::Refused, interim_reason: "", head, body: BodyPlan::Bare, close_data: b"tail".to_vec(), extra_interim: 0, unsolicited_100: 0 };
     let (stream, truth) = ex.render().unwrap();
     let flow = build_flow(&ex.cfg).unwrap();
     let mut rng = Rng::new(idx);
@@ -664,7 +677,7 @@ impl Property for P {
         for t in ["Await100", "Response", "Chunked"] {
             v.push((format!("{}/Err/*", t), 100));
         }
-        for m in ["flood-interim", "flood-head", "flood-field", "bit-flip", "deletion", "duplication", "splice", "oversize-number", "stray-crlf", "many-fields", "truncation", "huge-name", "huge-value", "chunk-line-games", "conflicting-fields"] {
+        for m in ["field-value-games", "flood-interim", "flood-head", "flood-field", "bit-flip", "deletion", "duplication", "splice", "oversize-number", "stray-crlf", "many-fields", "truncation", "huge-name", "huge-value", "chunk-line-games", "conflicting-fields"] {
             v.push((format!("mutation/{}", m), 100));
         }
         v.push(("outcome/completed".into(), 100));
